@@ -17,7 +17,14 @@ Pool == <<
     [txt |-> "SO4-2",      comp |-> (16 :> <<1, 1>>) @@ (8 :> <<4, 1>>), q |-> -2],
     [txt |-> "UO2.25",     comp |-> (92 :> <<1, 1>>) @@ (8 :> <<9, 4>>), q |-> 0],
     [txt |-> "Na2CO3..10H2O", comp |-> (11 :> <<2, 1>>) @@ (6 :> <<1, 1>>) @@ (8 :> <<13, 1>>) @@ (1 :> <<20, 1>>), q |-> 0],
-    [txt |-> "Og",         comp |-> (118 :> <<1, 1>>), q |-> 0] >>
+    [txt |-> "Og",         comp |-> (118 :> <<1, 1>>), q |-> 0],
+    \* entries with EQUAL coefficient x mass products: isomers, one composition in two phases,
+    \* and 3 O2 vs 2 O3
+    [txt |-> "C2H5OH",     comp |-> (6 :> <<2, 1>>) @@ (1 :> <<6, 1>>) @@ (8 :> <<1, 1>>), q |-> 0],
+    [txt |-> "CH3OCH3",    comp |-> (6 :> <<2, 1>>) @@ (1 :> <<6, 1>>) @@ (8 :> <<1, 1>>), q |-> 0],
+    [txt |-> "H2O(g)",     comp |-> (1 :> <<2, 1>>) @@ (8 :> <<1, 1>>), q |-> 0],
+    [txt |-> "O2",         comp |-> (8 :> <<2, 1>>), q |-> 0],
+    [txt |-> "O3",         comp |-> (8 :> <<3, 1>>), q |-> 0] >>
 
 VARIABLES mix, phase       \* mix: sequence of <<pool index, coefficient>>
 vars == <<mix, phase>>
@@ -46,6 +53,8 @@ SumIsTotal == Done => BCmp(Total, BSumTo(Len(mix))) = 0
 \* proportionality, cross-multiplied: Num(j) * c_k * M_k = Num(k) * c_j * M_j
 Proportional == Done => \A j, k \in 1..Len(mix) :
     BMul(Num(j), Num(k)) = BMul(Num(k), Num(j))
+\* the pool really contains pairs with equal coefficient x mass (vacuity guard for that class)
+HasEqualProducts == \E i, k \in 1..Len(Pool) : i # k /\ Pool[i].comp = Pool[k].comp
 
 CaseRec == [ in |-> [entries |-> [j \in 1..Len(mix) |-> [txt |-> Pool[mix[j][1]].txt, coef |-> mix[j][2]]]],
              exp |-> [num |-> [j \in 1..Len(mix) |-> Num(j)], den |-> Total],
